@@ -337,7 +337,11 @@ func TestVerifC35Hls(t *testing.T) {
 				"panic": panicked, "pm_calls": nd}, "hls-direct/"+class+"/"+oc, len(names) > 0)
 	}
 
+	out.w.Flush()
+
 	// through the listener: request targets, with the path net/url makes of them as oracle
+	// (a panic behind the listener ends this process through handlerExitOnPanic: whatever the direct call of
+	// the same path shows to panic behind the filter is recorded as such and not sent)
 	wireFixed := []string{"*", "/", "//", "http://localhost", "http://localhost/cam/", "/%", "/%zz", "/cam/%2e%2e/index.m3u8",
 		"/%2f/", "/a%0ab/", "/%00/", "/%ff/index.m3u8?cookieCheck=1", "mailto:x", "/cam /", "//host/x/"}
 	for i := 0; i < nWire; i++ {
@@ -359,6 +363,14 @@ func TestVerifC35Hls(t *testing.T) {
 			}
 		}
 		m := vPick(r, []string{"GET", "GET", "GET", "POST", "DELETE"})
+		if u0, err0 := url.ParseRequestURI(target); err0 == nil && strings.HasPrefix(u0.Path, "/") && !strings.ContainsAny(target, " ") {
+			if _, _, pk := vC35Direct(router, m, u0.Path, u0.RawQuery, nil); pk {
+				out.Case(cqApp("CHls", "true", vC35Meth(m), vC35Q(u0.Path), "false", "OPanic"),
+					map[string]any{"front": "hls", "mode": "wire (not sent: the handler panics on this path)", "method": m, "target": target, "path": u0.Path, "panic": true},
+					"hls-wire/"+class+"/panic", false)
+				continue
+			}
+		}
 		pm.take()
 		status := vC35Wire(addr, m, target)
 		names := pm.take()
@@ -376,6 +388,8 @@ func TestVerifC35Hls(t *testing.T) {
 		out.Case(cqApp("CHls", "true", vC35Meth(m), vC35Q(u.Path), cqBool(cookie), cqApp("ORes", cqZ(int64(status)), ns, "0")),
 			desc, fmt.Sprintf("hls-wire/%s/%d", class, status), len(names) > 0)
 	}
+
+	out.w.Flush()
 
 	// conf.IsValidPathName
 	validNames := []string{"", "/", "a", "/a", "a/", "a/b", ".", "..", "a/./b", "a/../b", "...", "a..b", "a b", "a\n", "\xff", "~a",
